@@ -5,9 +5,10 @@ import props.c02 as base
 class Prop:
     ID = 'C13'
     GEN = ['enums', 'node']
-    MODEL_TARGETS = ['model/Node.vo', 'model/NodeSpec.vo']
-    TARGETS = ['props/C13.vo']
+    MODEL_TARGETS = ['model/Node.vo', 'model/NodeSpec.vo', 'model/Cluster.vo', 'model/ClusterSpec.vo']
+    TARGETS = ['props/C13.vo', 'props/C13cluster.vo', 'props/C12.vo']
     PROPS_FILE = 'props/C13.v'
+    PROPS_FILES = ['props/C13.v', 'props/C13cluster.v']
     SUITES = [NodeSuite(evals={'mismatches': 'mismatches', 'spec_violations': 'spec_violations_c13'})]
     RULE = base.Prop.RULE
     ASSUMPTIONS = base.Prop.ASSUMPTIONS
